@@ -202,7 +202,7 @@ def judge(sh: Shard, mw, label, suspend, regime, exited):
 def gen_script(r, tier):
     from vlib.man import Phase
 
-    kind = r.choice(["plain", "plain", "outage", "rferr", "lossy-handshake", "absent", "wrong-id", "resets", "resets", "endpoint-raise", "long", "handler-raise", "handler-raise", "rferr-long"])
+    kind = r.choice(["plain", "plain", "outage", "rferr", "lossy-handshake", "absent", "wrong-id", "resets", "resets", "endpoint-raise", "long", "handler-raise", "handler-raise", "rferr-long", "reset-at-step", "reset-at-step"])
     phases, actions = [], []
     ident = None
     ep_fault = None
@@ -224,6 +224,10 @@ def gen_script(r, tier):
         n = r.choice([1, 2, 4])
         for _ in range(n):
             actions.append((r.choice([r.uniform(0, 6), r.uniform(0, phases[0].dur)]), r.choice(["reset", "reset", "set-info"])))
+    elif kind == "reset-at-step":
+        # a user reset right after the k-th callback scheduled since the context was entered
+        phases = [Phase("healthy", r.choice([10, 25]))]
+        actions = [(("step", r.randrange(0, 330)), r.choice(["reset", "reset", "set-info"]))]
     elif kind == "rferr-long":
         # past the too-many-RF-errors escalation (more than 50 on one connection)
         phases = [Phase("healthy", r.choice([6, 30])), Phase("rferr", r.choice([500, 3700])), Phase("healthy", 150)]
@@ -237,7 +241,7 @@ def gen_script(r, tier):
     else:
         phases = [Phase("healthy", 20), Phase("lossy", 100, 0.4), Phase("rferr", 40), Phase("blackout", 150), Phase("healthy", 250)]
         actions = [(r.uniform(0, 500), "reset") for _ in range(r.choice([0, 2]))]
-    return kind, phases, sorted(actions), ident, ep_fault
+    return kind, phases, (actions if kind == "reset-at-step" else sorted(actions)), ident, ep_fault
 
 
 def scenario(sh: Shard, seed, idx, tier):
@@ -275,6 +279,17 @@ def scenario(sh: Shard, seed, idx, tier):
                 t0 = mw.w.now
                 pending = list(actions)
                 users = []
+                if pending and isinstance(pending[0][0], tuple):
+                    (_, k_), act_ = pending.pop(0)
+                    lp = mw.w.loop
+
+                    def fire(act_=act_):
+                        users.append(asyncio.ensure_future(man.async_reset() if act_ == "reset" else man.async_set_spa_info(mw.kw["spa_address"], mw.kw["spa_identifier"], mw.kw["spa_name"])))
+                        sh.count("user_actions")
+                        sh.count("resets_at_a_scheduler_step")
+
+                    lp.step_target = lp.steps_scheduled + k_
+                    lp.step_hook = fire
                 for ph in phases:
                     mw.set_phase(ph)
                     end = mw.w.now + ph.dur
